@@ -96,6 +96,8 @@ def build_group(G, bdir, log):
     cfg.outside_methods = {k: set(v) for k, v in G.get('outside_methods', {}).items()}
     cfg.opaque_records = set(G.get('opaque_records', ()))
     cfg.scalar_records = dict(G.get('scalar_records', {}))
+    cfg.outside_funcs = dict(G.get('outside_funcs', {}))
+    cfg.aliases = [(cxx2c.norm_name(a), b) for a, b in G.get('aliases', ())]
     for hook in ('std_call_hook', 'member_call_hook', 'operator_call_hook'):
         if hook in G:
             setattr(cfg, hook, G[hook])
@@ -144,17 +146,22 @@ def layout_check(G, u, bdir, driver):
         raise cxx2c.Abort('layout self-check: C side does not compile:\n' + err[-3000:])
     rc, out, err, _ = sh([exe], timeout=60)
     cpp = ['#include "%s"' % driver, '#include <cstddef>', '#pragma clang diagnostic ignored "-Winvalid-offsetof"']
+    alias = {}
     for line in out.split('\n'):
         p = line.split('\t')
         if len(p) < 3:
             continue
         if '(lambda' in p[1] or '(anonymous' in p[1]:
             continue
+        if p[1] not in alias:
+            alias[p[1]] = 'vf_T%d' % len(alias)
+            cpp.append('using %s = ::%s;' % (alias[p[1]], p[1]))
+        t = alias[p[1]]
         if p[0] == 'S':
-            cpp.append('static_assert(sizeof(::%s) == %s, "cxx2c layout: sizeof %s");' % (p[1], p[2], p[1]))
+            cpp.append('static_assert(sizeof(%s) == %s, "cxx2c layout: sizeof %s");' % (t, p[2], p[1]))
             n += 1
         else:
-            cpp.append('static_assert(offsetof(::%s, %s) == %s, "cxx2c layout: offsetof %s::%s");' % (p[1], p[2], p[3], p[1], p[2]))
+            cpp.append('static_assert(offsetof(%s, %s) == %s, "cxx2c layout: offsetof %s::%s");' % (t, p[2], p[3], p[1], p[2]))
             n += 1
     src = os.path.join(bdir, 'layout.cpp')
     open(src, 'w').write('\n'.join(cpp) + '\n')
